@@ -35,7 +35,8 @@ fn completion_findings(s: &CaseSpec, o: &Outcome, an: &Analysis) -> (Vec<Finding
     // each lost/late datagram costs the worker ceil(T_peer / T) failed receive attempts before the peer's own timer
     // repairs it; the property's premise is fewer than 6 consecutive failed attempts
     let per_loss = (s.peer.timer_ns + s.t_ns - 1) / s.t_ns.max(1);
-    let in_premise = s.peer.is_plain() && s.write_budget.is_none() && !s.hostile() && (o.drops as u64) * per_loss.max(1) <= 5;
+    let isolated = s.label.starts_with("isolated:") && per_loss <= 1;
+    let in_premise = s.peer.is_plain() && s.write_budget.is_none() && !s.hostile() && ((o.drops as u64) * per_loss.max(1) <= 5 || isolated);
     if !in_premise {
         return (vec![], true);
     }
@@ -145,7 +146,7 @@ pub fn build(id: &str, tier: &str, seed: u64, threads: usize) -> Option<Plan> {
             }
             Some(Plan {
                 cases,
-                judge: judge_rules(&["CONTENT", "BEYOND_FINAL", "E2E"]),
+                judge: judge_rules(&["CONTENT", "BEYOND_FINAL", "E2E", "ENDED_EARLY"]),
                 required_classes: vec!["partial-ack", "retransmission-burst", "peer-complete"],
                 rule_text: "CONTENT: every DATA(k,payload) emitted by the worker equals file[(k-1)b,kb) for the absolute block the payload identifies (offset-keyed content) and k = abs mod 65536; BEYOND_FINAL: no block after the first short one; E2E: a client that reassembles in-order blocks and completes holds exactly the file".into(),
                 exhaustive_note: "exhaustive: every single fault (drop, dup, reorder, delay past timeout) on every datagram of every configuration in the grid; thorough: also all fault pairs for w<=3. Random fault plans are seeded samples.".into(),
@@ -196,10 +197,21 @@ pub fn build(id: &str, tier: &str, seed: u64, threads: usize) -> Option<Plan> {
         }
         "C04" => {
             let ws: &[u16] = if q { &[1, 2, 3, 4] } else { &[1, 2, 3, 4, 5, 6, 7, 8, 16] };
-            let cfgs = grid(&[Role::Send, Role::Recv], &[8, 512], ws, false, true, 1 << 20);
+            let mut cfgs = grid(&[Role::Send, Role::Recv], &[8, 512], ws, false, true, 1 << 20);
+            // transfers of 9-10 windows for faults that are spread over the whole transfer
+            for role in [Role::Send, Role::Recv] {
+                for w in [1u16, 2, 3] {
+                    cfgs.push(Cfg { role, b: 8, w, len: 8 * (10 * w as u64) - 3, hs: false, every: 0 });
+                }
+            }
             let bases = make_bases(&cfgs, seed, threads);
             for (b, _) in &bases {
                 cases.push(b.spec.clone());
+                fam_isolated(b, &mut cases);
+                if b.spec.nblocks() > 2 * b.spec.w as u64 + 2 {
+                    fam_rfold(b, &[1, 5], &mut cases);
+                    continue;
+                }
                 fam_single(b, true, 2, &mut cases);
                 // the same single faults against a dallying client
                 if b.spec.role == Role::Send {
@@ -242,6 +254,9 @@ pub fn build(id: &str, tier: &str, seed: u64, threads: usize) -> Option<Plan> {
             for (b, _) in &bases {
                 cases.push(b.spec.clone());
                 fam_silence_error(b, &mut cases);
+                if b.spec.nblocks() <= 3 {
+                    fam_error_texts(b, &mut cases);
+                }
                 if b.spec.role == Role::Send {
                     fam_ack_patterns(b, &mut cases);
                     if b.spec.w <= 5 {
@@ -265,7 +280,7 @@ pub fn build(id: &str, tier: &str, seed: u64, threads: usize) -> Option<Plan> {
             }
             Some(Plan {
                 cases,
-                judge: judge_rules(&["AFTER_ERROR", "AFTER_FINAL", "BEYOND_FINAL", "UNBOUNDED"]),
+                judge: judge_rules(&["AFTER_ERROR", "AFTER_FINAL", "BEYOND_FINAL", "UNBOUNDED", "ENDED_EARLY"]),
                 required_classes: vec!["error-in-reply-to-oack", "partial-ack", "peer-aborted", "peer-gave-up", "peer-complete"],
                 rule_text: "AFTER_ERROR: no socket event after an ERROR was delivered; AFTER_FINAL: no event after the final block was acknowledged (sender: ACK delivered; receiver: ACK emitted); BEYOND_FINAL: no DATA past the final block; UNBOUNDED: never more than 16 consecutive receive timeouts and never the event cap (50x the fault-free event count).".into(),
                 exhaustive_note: "exhaustive: peer silent from / ERROR at / stray ERROR before every peer datagram (including the reply to the OACK); client acknowledging every k blocks for k=1..w (with and without dally) for file lengths 0,1,b-1,b,b+1,wb-1,wb,wb+1,(w+1)b,2wb,2wb+1.".into(),
@@ -330,6 +345,9 @@ pub fn build(id: &str, tier: &str, seed: u64, threads: usize) -> Option<Plan> {
                 for clean in [true, false] {
                     let mut v = vec![b.spec.clone()];
                     fam_silence_error(b, &mut v);
+                    if b.spec.nblocks() <= 4 {
+                        fam_error_texts(b, &mut v);
+                    }
                     if b.spec.b == 8 {
                         fam_single(b, false, 0, &mut v);
                         if b.spec.nblocks() <= 5 || !q {
